@@ -1,5 +1,6 @@
 from contextlib import suppress
 from inspect import signature
+from types import SimpleNamespace
 import copy
 
 import numpy as np
@@ -119,7 +120,8 @@ class BoundConstraints:
         Parameters
         ----------
         bounds : scipy.optimize.Bounds
-            Bound constraints.
+            Bound constraints. Any object with attributes ``lb`` and ``ub`` is
+            accepted (`scipy.optimize.Bounds` cannot hold empty arrays).
         """
         self._xl = np.array(bounds.lb, float)
         self._xu = np.array(bounds.ub, float)
@@ -136,7 +138,6 @@ class BoundConstraints:
         self.m = np.count_nonzero(self.xl > -np.inf) + np.count_nonzero(
             self.xu < np.inf
         )
-        self.pcs = PreparedConstraint(bounds, np.ones(bounds.lb.size))
 
     @property
     def xl(self):
@@ -184,7 +185,7 @@ class BoundConstraints:
         if self.is_feasible:
             return np.array([0])
         else:
-            return self.pcs.violation(x)
+            return np.maximum(self.xl - x, 0.0) + np.maximum(x - self.xu, 0.0)
 
     def project(self, x):
         """
@@ -272,9 +273,6 @@ class LinearConstraints:
         self._b_ub = self.b_ub[~undef_ub]
         self._a_eq = self.a_eq[~undef_eq, :]
         self._b_eq = self.b_eq[~undef_eq]
-        self.pcs = [
-            PreparedConstraint(c, np.ones(n)) for c in constraints if c.A.size
-        ]
 
     @property
     def a_ub(self):
@@ -365,9 +363,13 @@ class LinearConstraints:
         return np.max(self.violation(x), initial=0.0)
 
     def violation(self, x):
-        if len(self.pcs):
-            return np.concatenate([pc.violation(x) for pc in self.pcs])
-        return np.array([])
+        x = np.asarray(x, dtype=float)
+        return np.concatenate(
+            (
+                np.maximum(self.a_ub @ x - self.b_ub, 0.0),
+                np.abs(self.a_eq @ x - self.b_eq),
+            )
+        )
 
 
 class NonlinearConstraints:
@@ -707,7 +709,10 @@ class Problem:
         # Set the bound constraints.
         self._orig_bounds = bounds
         self._bounds = BoundConstraints(
-            Bounds(bounds.xl[~self._fixed_idx], bounds.xu[~self._fixed_idx])
+            SimpleNamespace(
+                lb=bounds.xl[~self._fixed_idx],
+                ub=bounds.xu[~self._fixed_idx],
+            )
         )
 
         # Set the initial guess.
@@ -732,6 +737,7 @@ class Problem:
         # Scale the problem if necessary.
         scale = (
             scale
+            and self.n > 0
             and self._bounds.is_feasible
             and np.all(np.isfinite(self._bounds.xl))
             and np.all(np.isfinite(self._bounds.xu))
@@ -1187,7 +1193,7 @@ class Problem:
             b = self.bounds.violation(x)
             violation.append(b)
 
-        if len(self.linear.pcs):
+        if self.m_linear_ub > 0 or self.m_linear_eq > 0:
             lc = self.linear.violation(x)
             violation.append(lc)
         if len(self._nonlinear.pcs):
